@@ -1,7 +1,7 @@
 #!/bin/bash
-# usage: tools/verify_seed.sh <PROP> <n>   -- confirm a sub-agent's seeded change in its scratch worktree /tmp/seed/<PROP>
+# usage: tools/verify_seed.sh <PROP> <n> [target-index]   -- confirm a sub-agent's seeded change in its scratch worktree /tmp/seed/<PROP>
 # (tests still pass with the patch, demo fails with it and passes without), then keep it under /verif/seeded/<PROP>-<n>/
-prop=$1; n=$2; wt=/tmp/seed/$prop; out=$wt/out
+prop=$1; n=$2; t=${3:-$2}; wt=/tmp/seed/$prop; out=$wt/out
 [ -f $out/patch$n.diff ] || { echo "no patch $out/patch$n.diff"; exit 2; }
 cd $wt && git checkout -q -- src && git apply --check $out/patch$n.diff || { echo "SEED $prop-$n patch does not apply"; exit 2; }
 git apply $out/patch$n.diff
@@ -12,7 +12,7 @@ PYTHONPATH=$wt/src timeout 300 /venv/bin/python -B $out/demo$n.py >/dev/null 2>&
 echo "SEED $prop-$n tests='$tests' demo_with_patch_rc=$with demo_without_rc=$without"
 case "$tests" in *failed*|*error*) echo "  REJECT: tests fail"; exit 1;; esac
 if [ $with -ne 0 ] && [ $without -eq 0 ]; then
-  d=/verif/seeded/$prop-$n; mkdir -p $d
+  d=/verif/seeded/$prop-$t; mkdir -p $d
   cp $out/patch$n.diff $d/patch.diff; cp $out/demo$n.py $d/demo.py
   python3 - "$out/meta$n.json" "$d/meta.json" "$tests" <<'PY'
 import json, sys
